@@ -308,9 +308,9 @@ func (ufs *Ufs) Walk(req *SrvReq) {
 	fid := req.Fid.Aux.(*ufsFid)
 	tc := req.Tc
 
-	err := fid.stat()
-	if err != nil {
-		req.RespondError(err)
+	/* any number of walks may start from one fid at the same time: only look, don't refresh fid.st */
+	if _, err := os.Lstat(fid.path); err != nil {
+		req.RespondError(toError(err))
 		return
 	}
 
